@@ -507,6 +507,8 @@ def rule_owner_only_unmark(ctx: Ctx, r: CacheRoles, rule: str) -> None:
 
 def c01(ctx: Ctx) -> None:
     r = _roles(ctx)
+    from .common import rule_unbound
+    rule_unbound(ctx, 'C01-U1', [r.impl], 'threadsafe_async_cache')
     g = r.cfg
     ctx.trusted += ['CPython dict get/set atomicity', 'threading.Lock semantics',
                     'the 10-line hand argument of DESIGN 4.A (premises are what is checked here)',
@@ -781,6 +783,8 @@ def _marker_part(r: CacheRoles, x: ast.AST, lv: Set[str]):
 
 def c05(ctx: Ctx) -> None:
     r = _roles(ctx)
+    from .common import rule_unbound
+    rule_unbound(ctx, 'C05-U1', [r.impl], 'threadsafe_async_cache')
     g = r.cfg
     ctx.trusted += ['asyncio.Event / wait_for / run_coroutine_threadsafe semantics',
                     'every invocation of the wrapped function finishes or is cancelled (premise of the property)']
@@ -990,6 +994,8 @@ def c05(ctx: Ctx) -> None:
 
 def c06(ctx: Ctx) -> None:
     r = _roles(ctx)
+    from .common import rule_unbound
+    rule_unbound(ctx, 'C06-U1', [r.impl], 'threadsafe_async_cache')
     g = r.cfg
     ctx.trusted += ['asyncio.shield / Task.cancel semantics']
     ctx.rule('C06-R1', 'no path from an exception/cancel edge of CALL reaches PUBLISH', 1)
@@ -1153,6 +1159,8 @@ BAD_WRAPPERS = ('hash', 'str', 'repr', 'len', 'id')
 
 def c14(ctx: Ctx) -> None:
     r = _roles(ctx)
+    from .common import rule_unbound
+    rule_unbound(ctx, 'C14-U1', [r.impl], 'threadsafe_async_cache')
     g = r.cfg
     w = r.wrapper
     ctx.trusted += ['== / hash of user values', 'behaviour of the supplied MutableMapping']
